@@ -1,0 +1,58 @@
+//go:build verif
+
+package dht
+
+// Contracts on the root package (lookups, handlers, routing). Comment-only
+// file read by /verif/govc; no executable content.
+
+/*@
+# ---- lookup state (C01, C02, C03) -----------------------------------------
+# dist(qp,p): distance of member p; notU: state is not PeerUnreachable
+pred pdist(qp *qpeerset.QueryPeerset, p peer.ID) = bigval(qp.all[qp.$idx[p]].distance)
+pred QI(q *query) = q.queryPeers != nil && q.dht != nil && qpeerset.wf(q.queryPeers) && !q.queryPeers.$has[q.dht.self]
+pred cfgOK(dht *IpfsDHT) = dht.bucketSize >= 1 && dht.alpha >= 1 && dht.beta >= 1
+
+# the last selection made on qp (witnesses $src/$rank/$cnt) is exactly the n
+# nearest members that are not unreachable
+pred selNU(qp *qpeerset.QueryPeerset, n int) = 0 <= qp.$cnt && qp.$cnt <= n
+   | && all(j, 0, qp.$cnt, 0 <= qp.$src[j] && qp.$src[j] < len(qp.all) && qp.$src[j] >= j && qp.all[qp.$src[j]].state != qpeerset.PeerUnreachable)
+   | && all(a, 0, qp.$cnt, all(b, a+1, qp.$cnt, qp.$src[a] < qp.$src[b]))
+   | && all(m, 0, len(qp.all), imp(qp.all[m].state != qpeerset.PeerUnreachable, (0 <= qp.$rank[m] && qp.$rank[m] < qp.$cnt && qp.$src[qp.$rank[m]] == m) || (qp.$cnt == n && all(j, 0, qp.$cnt, qp.$src[j] < m))))
+
+func (q *query) isLookupTermination() bool
+  props C01 C02
+  requires QI(q) && q.dht.beta >= 0
+  modifies q.queryPeers.all, q.queryPeers.sorted, q.queryPeers.$idx, q.queryPeers.$src, q.queryPeers.$rank, q.queryPeers.$cnt
+  ensures QI(q) && q.queryPeers.sorted
+  ensures len(q.queryPeers.all) == old(len(q.queryPeers.all)) && qpeerset.sameEntries(q.queryPeers)
+  ensures imp(old(q.queryPeers.sorted), q.queryPeers.all == old(q.queryPeers.all) && q.queryPeers.$idx == old(q.queryPeers.$idx))
+  ensures [selection] selNU(q.queryPeers, q.dht.beta)
+  ensures [meaning] iff(result, all(j, 0, q.queryPeers.$cnt, q.queryPeers.all[q.queryPeers.$src[j]].state == qpeerset.PeerQueried))
+  loop over peers invariant all(j, 0, $key, q.queryPeers.all[q.queryPeers.$src[j]].state == qpeerset.PeerQueried)
+
+func (q *query) isStarvationTermination() bool
+  props C01 C02
+  requires QI(q)
+  modifies q.queryPeers.all, q.queryPeers.sorted, q.queryPeers.$idx, q.queryPeers.$src, q.queryPeers.$rank, q.queryPeers.$cnt
+  ensures QI(q)
+  ensures len(q.queryPeers.all) == old(len(q.queryPeers.all)) && qpeerset.sameEntries(q.queryPeers)
+  ensures imp(old(q.queryPeers.sorted), q.queryPeers.all == old(q.queryPeers.all) && q.queryPeers.$idx == old(q.queryPeers.$idx))
+  ensures [meaning] iff(result, all(m, 0, len(q.queryPeers.all), q.queryPeers.all[m].state != qpeerset.PeerHeard && q.queryPeers.all[m].state != qpeerset.PeerWaiting))
+
+func (q *query) constructLookupResult() *lookupWithFollowupResult
+  props C01 C02
+  requires QI(q) && cfgOK(q.dht)
+  let qp = q.queryPeers
+  let K = q.dht.bucketSize
+  modifies q.queryPeers.all, q.queryPeers.sorted, q.queryPeers.$idx, q.queryPeers.$src, q.queryPeers.$rank, q.queryPeers.$cnt
+  ensures QI(q)
+  ensures len(qp.all) == old(len(qp.all)) && qpeerset.sameEntries(qp)
+  ensures result != nil && len(result.state) == len(result.peers) && len(result.peers) <= K && len(result.closest) <= K
+  ensures [members] all(j, 0, len(result.peers), qp.$has[result.peers[j]] && qpeerset.stateOf(qp, result.peers[j]) != qpeerset.PeerUnreachable && result.state[j] == qpeerset.stateOf(qp, result.peers[j]))
+  ensures [ascending] all(a, 0, len(result.peers), all(b, a+1, len(result.peers), pdist(qp, result.peers[a]) <= pdist(qp, result.peers[b]) && result.peers[a] != result.peers[b]))
+  ensures [topK] all(m, 0, len(qp.all), imp(qp.all[m].state != qpeerset.PeerUnreachable && all(j, 0, len(result.peers), result.peers[j] != qp.all[m].id), len(result.peers) == K && all(j, 0, len(result.peers), pdist(qp, result.peers[j]) <= bigval(qp.all[m].distance))))
+  ensures [closestTopK] all(m, 0, len(qp.all), imp(all(j, 0, len(result.closest), result.closest[j] != qp.all[m].id), len(result.closest) == K && all(j, 0, len(result.closest), qp.$has[result.closest[j]] && pdist(qp, result.closest[j]) <= bigval(qp.all[m].distance))))
+  ensures [starved] imp(all(m, 0, len(qp.all), qp.all[m].state != qpeerset.PeerHeard && qp.all[m].state != qpeerset.PeerWaiting), result.completed)
+  loop over peers invariant res != nil && len(res.state) == len(peers) && res.peers == peers && res.closest == closest && res.completed == completed
+  loop over peers invariant all(j, 0, $key, res.state[j] == qpeerset.stateOf(q.queryPeers, peers[j]))
+@*/
